@@ -17,7 +17,33 @@ EXPLANATION = ("Per-fragment equality with the documented procedure is decided e
                "statement is the paper argument of DESIGN.md section 4/C12 (the timer is the only opaque input, and every fragment's use of "
                "it is pinned).")
 
+from .jroles import roles as jitter_roles, find_field, ec_state
 J = "rand_jitter::JitterRng::<F>::"
+
+
+class _Roles(dict):
+    """J + name for public functions, the role table for private ones"""
+
+
+ROLE = {}
+
+
+def fn(name):
+    return ROLE.get(name, J + name)
+
+
+def role_seq(calls):
+    """callee sequence in role names (a renamed private function keeps its role name here)"""
+    back = {v.split("::")[-1]: k for k, v in ROLE.items()}
+    out = []
+    for c in calls:
+        if "Fn<()>" in c[1]:
+            out.append("timer")
+        else:
+            parts = [p_ for p_ in c[1].split("::") if not p_.startswith("<")]
+            last = parts[-1] if parts else c[1]
+            out.append(back.get(last, last))
+    return out
 
 
 def ev_for(crate, opaque=()):
@@ -41,9 +67,11 @@ def run(chk, tier):
     crate = Crate("rand_jitter")
     chk.config(crate.config)
     g = Gen(crate, "JitterRng")
-    iD = field_index(g.adt, "data")
-    iR = field_index(g.adt, "rounds")
-    iM = field_index(g.adt, "mem_prev_index")
+    ROLE.clear()
+    ROLE.update(jitter_roles(crate))
+    iD = find_field(g.adt, "data", "u64")
+    iR = find_field(g.adt, "rounds", "u8")
+    iM = find_field(g.adt, "mem_prev_index", "u16")
     try:
         iH = field_index(g.adt, "data_half_used")  # only used for the constructor's initial values; the half bookkeeping is C16's
     except Anchor:
@@ -51,7 +79,7 @@ def run(chk, tier):
     nob = 0
 
     # ---- lfsr
-    lk = next((k for k, b in crate.bodies.items() if b["def"].endswith("lfsr_time::lfsr")), None)
+    lk = next((k for k, b in crate.bodies.items() if b["def"] == ROLE["lfsr"]), None)
     if lk is None:
         raise Anchor("lfsr not found")
     chk.body(lk)
@@ -65,7 +93,7 @@ def run(chk, tier):
            "" if ok else T.diff(r, e), where=crate.bodies[lk]["span"][0], sample={"fragment": "lfsr", "normal_form": T.show(r, 2)})
 
     # ---- random_loop_cnt(4) (evaluated in the context of its two call sites, n_bits = 4)
-    rk = body_by_def(crate, J + "random_loop_cnt")
+    rk = body_by_def(crate, fn("random_loop_cnt"))
     chk.body(rk)
     ev = ev_for(crate)
     st = State()
@@ -84,13 +112,13 @@ def run(chk, tier):
     chk.ob("R2", "random_loop_cnt|does not change the generator", pure, "", nontrivial=False)
     for site_fn in ("lfsr_time", "memaccess"):
         # evaluated with random_loop_cnt opaque (private helpers in between are inlined): one call, n_bits = 4
-        sk_ = body_by_def(crate, J + site_fn)
-        ev_s = ev_for(crate, opaque=[J + "random_loop_cnt"])
+        sk_ = body_by_def(crate, fn(site_fn))
+        ev_s = ev_for(crate, opaque=[fn("random_loop_cnt")])
         st_s = State()
         args_s, _ = symbolic_args(ev_s, st_s, crate.bodies[sk_])
         try:
             ev_s.call_body(st_s, sk_, args_s)
-            sites = [c for c in ev_s.calls if c[1].split("::<")[0].endswith("random_loop_cnt") or c[1].endswith("random_loop_cnt")]
+            sites = [c for c in ev_s.calls if c[1].split("::<")[0].endswith(ROLE["random_loop_cnt"].split("::")[-1]) or c[1].endswith(ROLE["random_loop_cnt"].split("::")[-1])]
             okc = len(sites) == 1 and sites[0][5][1] == (T.const(4, 32),)
             detail = "%d call(s), n_bits %s" % (len(sites), [[T.show(x, 1) for x in c[5][1]] for c in sites])
         except (Unsupported, SymbolicLoop, Diverged) as e:
@@ -98,14 +126,15 @@ def run(chk, tier):
         chk.ob("R2", "%s|calls random_loop_cnt once, with n_bits = 4" % site_fn, okc, detail, nontrivial=False)
 
     # ---- stuck
-    sk = body_by_def(crate, "rand_jitter::EcState::stuck")
+    sk = body_by_def(crate, ROLE["stuck"])
     chk.body(sk)
     ev = crate.evaluator()
     st = State()
     args, objs = symbolic_args(ev, st, crate.bodies[sk])
     ecv = st.objs[args[0].obj]
-    names = [f["name"] for f in crate.adt("rand_jitter::EcState")["variants"][0]["fields"]]
-    iL, iL2 = names.index("last_delta"), names.index("last_delta2")
+    ecadt = ec_state(crate)
+    names = [f["name"] for f in ecadt["variants"][0]["fields"]]
+    iL, iL2 = find_field(ecadt, "last_delta", "i32", 0, 2), find_field(ecadt, "last_delta2", "i32", 1, 2)
     cur = args[1]
     r = ev.call_body(st, sk, args)
     es, nl, nl2 = REF.stuck(ecv.fields[iL], ecv.fields[iL2], cur)
@@ -116,7 +145,7 @@ def run(chk, tier):
            where=crate.bodies[sk]["span"][0], sample={"fragment": "stuck", "normal_form": T.show(r, 3)})
 
     # ---- stir_pool
-    pk = body_by_def(crate, J + "stir_pool")
+    pk = body_by_def(crate, fn("stir_pool"))
     chk.body(pk)
     ev = crate.evaluator()
     st = State()
@@ -130,7 +159,7 @@ def run(chk, tier):
            "" if ok else T.diff(post.fields[iD], e), where=crate.bodies[pk]["span"][0], sample={"fragment": "stir_pool"})
 
     # ---- lfsr_time
-    tk = body_by_def(crate, J + "lfsr_time")
+    tk = body_by_def(crate, fn("lfsr_time"))
     chk.body(tk)
     ev = ev_for(crate)
     st = State()
@@ -158,7 +187,7 @@ def run(chk, tier):
     chk.ob("R9", "lfsr_time|timer readings: one iff var_rounds", okt, "%d timer call sites evaluated" % len(timer_calls(ev)), nontrivial=False)
 
     # ---- memaccess
-    mk = body_by_def(crate, J + "memaccess")
+    mk = body_by_def(crate, fn("memaccess"))
     chk.body(mk)
     ev = ev_for(crate)
     st = State()
@@ -191,21 +220,21 @@ def run(chk, tier):
            where=crate.bodies[mk]["span"][0], sample={"fragment": "memaccess", "detail": detail})
 
     # ---- measure_jitter: call sequence with memaccess / lfsr_time opaque
-    jk = body_by_def(crate, J + "measure_jitter")
+    jk = body_by_def(crate, fn("measure_jitter"))
     chk.body(jk)
-    ev = ev_for(crate, opaque=[J + "memaccess", J + "lfsr_time"])
+    ev = ev_for(crate, opaque=[fn("memaccess"), fn("lfsr_time")])
     st = State()
     args, objs = symbolic_args(ev, st, crate.bodies[jk])
     pre = st.objs[args[0].obj]
     ecpre = st.objs[args[1].obj]
     r = ev.call_body(st, jk, args)
-    seq = [c[1].split("::")[-1] if "Fn<()>" not in c[1] else "timer" for c in ev.calls]
+    seq = role_seq(ev.calls)
     oks = seq == ["memaccess", "timer", "lfsr_time"]
     chk.ob("R7", "measure_jitter|memaccess, then one reading, then lfsr_time", oks, "sequence %s" % seq, where=crate.bodies[jk]["span"][0],
            sample={"fragment": "measure_jitter", "sequence": seq})
     if oks:
         rd = reading(ev.calls[1][4])
-        iP = names.index("prev_time")
+        iP = find_field(ecadt, "prev_time", "u64")
         delta32 = T.trunc(T.sub(rd, ecpre.fields[iP]), 32)
         lf = ev.calls[2]
         # arguments of lfsr_time: (self, time = sign-extended delta, true)
@@ -242,24 +271,24 @@ def run(chk, tier):
            "min %d max %d" % (depth, _max_ticks(st.world, w0)), where=crate.bodies[jk]["span"][0])
 
     # ---- gen_entropy structure with measure_jitter / stir_pool opaque
-    gk = body_by_def(crate, J + "gen_entropy")
+    gk = body_by_def(crate, fn("gen_entropy"))
     chk.body(gk)
-    ev = ev_for(crate, opaque=[J + "measure_jitter", J + "stir_pool"])
+    ev = ev_for(crate, opaque=[fn("measure_jitter"), fn("stir_pool")])
     st = State()
     args, objs = symbolic_args(ev, st, crate.bodies[gk])
     pre = st.objs[args[0].obj]
     r = ev.call_body(st, gk, args)
-    seq = [c[1].split("::")[-1] if "Fn<()>" not in c[1] else "timer" for c in ev.calls]
+    seq = role_seq(ev.calls)
     oks = len(seq) >= 4 and seq[0] == "timer" and seq[1] == "measure_jitter" and seq[-1] == "stir_pool" and seq.count("stir_pool") == 1 \
         and seq.count("timer") == 1 and all(s_ in ("timer", "measure_jitter", "stir_pool") for s_ in seq)
     chk.ob("R8", "gen_entropy|one priming reading, one discarded measurement, the rounds loop, exactly one stir_pool, nothing else", oks,
            "sequence %s" % seq, where=crate.bodies[gk]["span"][0], sample={"fragment": "gen_entropy", "sequence": seq})
     post = st.objs[args[0].obj]
-    okr = r is post.fields[iD] and r.op == "res" and "stir_pool" in str(r.args[0].aux)
+    okr = r is post.fields[iD] and r.op == "res" and ROLE["stir_pool"].split("::")[-1] in str(r.args[0].aux)
     chk.ob("R8", "gen_entropy|returns the pool as left by stir_pool", okr, "returns %s" % T.show(r, 2), where=crate.bodies[gk]["span"][0])
     recs = [r_ for r_ in ev.loops_log if r_.body == gk]
     def is_retry_loop(r_):
-        mcs = [c for c in r_.calls if c[1].endswith("measure_jitter")]
+        mcs = [c for c in r_.calls if c[1].endswith(ROLE["measure_jitter"].split("::")[-1])]
         if len(mcs) != 1 or len(r_.exits) != 1:
             return False
         d = T.atom("res", 64, (mcs[0][4],), "ret.discr")
@@ -271,7 +300,7 @@ def run(chk, tier):
         # the same thing as one loop: `while accepted < rounds { if measure_jitter(..) { accepted += 1 } }` -- one measurement
         # per iteration, and the counter advances exactly when that measurement was accepted
         r_ = recs[0]
-        mcs = [c for c in r_.calls if c[1].endswith("measure_jitter")]
+        mcs = [c for c in r_.calls if c[1].endswith(ROLE["measure_jitter"].split("::")[-1])]
         if len(mcs) == 1 and len(r_.conts) == 1:
             call = mcs[0][4]
             accepted = [T.bnot(T.eqz(T.atom("res", 64, (call,), "ret.discr"))), T.atom("res", 1, (call,), "ret")]
@@ -296,14 +325,14 @@ def run(chk, tier):
                "first measurement sees %s" % [T.show(x, 2) for x in ecsig[:3]], where=crate.bodies[gk]["span"][0])
 
     # ---- timer_stats
-    sk2 = body_by_def(crate, J + "timer_stats")
+    sk2 = body_by_def(crate, fn("timer_stats"))
     chk.body(sk2)
-    ev = ev_for(crate, opaque=[J + "memaccess", J + "lfsr_time"])
+    ev = ev_for(crate, opaque=[fn("memaccess"), fn("lfsr_time")])
     st = State()
     args, objs = symbolic_args(ev, st, crate.bodies[sk2])
     var = args[1]
     r = ev.call_body(st, sk2, args)
-    seq = [c[1].split("::")[-1] if "Fn<()>" not in c[1] else "timer" for c in ev.calls]
+    seq = role_seq(ev.calls)
     oks = seq == ["timer", "memaccess", "lfsr_time", "timer"]
     if oks:
         t1, t2 = reading(ev.calls[0][4]), reading(ev.calls[3][4])
@@ -312,7 +341,7 @@ def run(chk, tier):
            "sequence %s, returns %s" % (seq, T.show(r, 2) if isinstance(r, T.T) else r), where=crate.bodies[sk2]["span"][0])
 
     # ---- new_with_timer
-    nk = body_by_def(crate, J + "new_with_timer")
+    nk = body_by_def(crate, fn("new_with_timer"))
     ev = crate.evaluator()
     st = State()
     args, objs = symbolic_args(ev, st, crate.bodies[nk])
